@@ -434,7 +434,8 @@ def run_shard(spec):
 TEXT = ("Held on every case observed: ~10 000 (quick) / ~500 000 (thorough) expressions round-tripped through text into "
         "a fresh manager (structure, ==, hash, value, dependencies) over worlds with hostile keys, and ~480 / ~40 000 "
         "managers dumped and loaded / copied (plain, rebound to a nested reference, overwrite=False) with mirrored "
-        "follow-up assignments. Exploration over sampled expressions and histories.")
+        "follow-up assignments. Exploration over sampled expressions and histories."
+        " The receiving manager's label map is compared before/after every copy and a rebound copy is followed by a plain copy into the same manager.")
 NOTE = ("Trusted: the structural walker over public slots; the twin / directly-built reference managers. "
         "math.floor/ceil/trunc print as floor(x) etc. (KF2, classified by mechanism).")
 TECHNIQUE = "runtime monitoring: round-trip oracle per expression (structure/value/dependencies against a fresh manager) + twin managers compared under mirrored follow-up assignments"
